@@ -292,10 +292,9 @@ example : langs '1' { nrow := 2, ncol := 2, cols := #[#[(0, 1), (1, -3)], #[(1, 
 
 /-- `?PivotGrowth` is the minimum (capped by `rpg0 = 1/safmin`) of `max|A_·j| / max|U_·j|` (1 when the U column is
 zero) over the first `ncols` columns, U taken from the NCP part AND the upper triangle of the supernode rectangle
-(`ucolMaxAbs`) — PROVIDED the supernodes are numbered in column order (`SupInOrder`, forced hypothesis: the C loop walks
-supernode numbers and breaks at the first supernode that reaches column `ncols`). -/
-theorem growth_spec_partial (ncols : Nat) (A : NCMat) (permC : Array Int) (L : SCP) (U : NCP) (rpg0 : Rat)
-    (hord : SupInOrder L.sn.toList) :
+(`ucolMaxAbs`), whatever order the supernodes are numbered in (the original loop needed `SupInOrder`: it walked supernode
+numbers and broke at the first one reaching column `ncols`; repaired in /repo, see `growth_orig_counterexample`). -/
+theorem growth_spec_partial (ncols : Nat) (A : NCMat) (permC : Array Int) (L : SCP) (U : NCP) (rpg0 : Rat) :
     pivotGrowth ncols A permC L U rpg0 = pivotGrowthSpec ncols A permC L U rpg0 ∧
     pivotGrowth ncols A permC L U rpg0 ≤ rpg0 ∧
     (∀ sn ∈ L.sn.toList, ∀ k, k < sn.e - sn.f → sn.f + k < ncols →
@@ -304,7 +303,7 @@ theorem growth_spec_partial (ncols : Nat) (A : NCMat) (permC : Array Int) (L : S
       ∃ sn ∈ L.sn.toList, ∃ k, k < sn.e - sn.f ∧ sn.f + k < ncols ∧
         pivotGrowth ncols A permC L U rpg0 = growthRatio A (fun j => (invPerm A.ncol permC).getD j 0) U sn k) := by
   have heq : pivotGrowth ncols A permC L U rpg0 = pivotGrowthSpec ncols A permC L U rpg0 := by
-    unfold pivotGrowth pivotGrowthSpec; exact growthLoop_eq_spec _ _ _ _ _ _ hord
+    unfold pivotGrowth pivotGrowthSpec; exact growthLoop_eq_spec _ _ _ _ _ _
   refine ⟨heq, ?_, ?_, ?_⟩
   all_goals rw [heq]; unfold pivotGrowthSpec; simp only; rw [foldl_cands_flat]
   · exact foldl_rmin_le_init _ _
@@ -335,10 +334,11 @@ def growthCexA : NCMat := { nrow := 2, ncol := 2, cols := #[#[(0, 1)], #[(1, 1)]
 /-- counter-example without the hypothesis: the loop stops after supernode 0 (it reaches column `ncols = 2`) and never
 looks at column 0; it returns 1 although the minimum over the columns is 1/4 -/
 theorem growth_spec_counterexample :
-    pivotGrowth 2 growthCexA #[0, 1] growthCexL growthCexU 1000 = 1 ∧
+    pivotGrowthOrig 2 growthCexA #[0, 1] growthCexL growthCexU 1000 = 1 ∧
+    pivotGrowth 2 growthCexA #[0, 1] growthCexL growthCexU 1000 = 1 / 4 ∧
     pivotGrowthSpec 2 growthCexA #[0, 1] growthCexL growthCexU 1000 = 1 / 4 ∧
     ¬ SupInOrder growthCexL.sn.toList := by
-  refine ⟨by decide +kernel, by decide +kernel, ?_⟩
+  refine ⟨by decide +kernel, by decide +kernel, by decide +kernel, ?_⟩
   simp [SupInOrder, growthCexL]
 
 example : SupInOrder [{ f := 0, e := 1, rowBeg := 0, rows := #[0], nzBeg := #[0], vals := #[#[4]] },
